@@ -5,12 +5,24 @@ set -u
 PATCH=$1; PROP=$2
 cd /repo || exit 2
 if ! git diff --quiet; then echo "/repo has local modifications, refusing"; exit 2; fi
-git apply "$PATCH" || { echo "patch does not apply"; exit 2; }
-trap 'git -C /repo checkout -q -- . ; git -C /repo clean -fdq' EXIT
+REPO=/repo
+if [ -n "${SEED_FORCE_BASE:-}" ] || ! git apply --check "$PATCH" 2>/dev/null; then
+  # the tree has moved on under this patch: evaluate it on its base commit in a scratch worktree
+  BASE=${SEED_BASE:-96f2c69}
+  REPO=/tmp/seeded_eval_wt; git -C /repo worktree remove --force $REPO 2>/dev/null
+  git -C /repo worktree add -q --detach $REPO $BASE || { echo "cannot create worktree at $BASE"; exit 2; }
+  echo "(patch does not apply to the current tree; evaluated at $BASE)"
+  cd $REPO
+  git apply "$PATCH" || { echo "patch does not apply at $BASE either"; git -C /repo worktree remove --force $REPO; exit 2; }
+  trap 'git -C /repo worktree remove --force /tmp/seeded_eval_wt' EXIT
+else
+  git apply "$PATCH"
+  trap 'git -C /repo checkout -q -- . ; git -C /repo clean -fdq' EXIT
+fi
 mkdir -p /tmp/seeded_eval_verif; cp /verif/known_findings.json /tmp/seeded_eval_verif/
 for tier in quick thorough; do
-  /verif/bin/templvet -repo /repo -verif /tmp/seeded_eval_verif -property "$PROP" -tier $tier > /tmp/seeded_eval.out 2>&1; rc=$?
+  /verif/bin/templvet -repo $REPO -verif /tmp/seeded_eval_verif -property "$PROP" -tier $tier > /tmp/seeded_eval.out 2>&1; rc=$?
   echo "== $PROP $tier exit=$rc"; grep -E "^(VIOLATED|UNDECIDED)" /tmp/seeded_eval.out | cut -c1-400
 done
 echo "== other properties (quick):"
-/verif/bin/templvet -repo /repo -verif /tmp/seeded_eval_verif -property all -tier quick 2>&1 | grep -E "tier=quick" | grep -v "violations=0" | grep -v "^$PROP "
+/verif/bin/templvet -repo $REPO -verif /tmp/seeded_eval_verif -property all -tier quick 2>&1 | grep -E "tier=quick" | grep -v "violations=0" | grep -v "^$PROP "
